@@ -16,7 +16,7 @@ RULE = ("twin worlds from the same pre-state: world A evaluates call_batch(kwarg
 ASSUMPTIONS = ["exceptions are compared by class and original message", "stores are compared as sets of (qualified name, argument hash, result type, value, invocation list)"]
 COMPONENTS = {"real": ["call_batch / map_over_range, LocalRunnerBackend.batch_run, runner, storage backends", "fork lifetimes"],
               "stub": ["generated program", "uuid4, clock"]}
-REACH = ["batches", "map_over_range", "raise_first", "with_failing_element", "with_duplicates", "with_prememoized", "empty_batches",
+REACH = ["with_warm_elements", "batches", "map_over_range", "raise_first", "with_failing_element", "with_duplicates", "with_prememoized", "empty_batches",
          "partial_prefix", "restart_before_batch"]
 
 
@@ -31,8 +31,9 @@ def gen_case(seed):
     if via == "map_over_range" and not xs:
         xs = [1]
     pre = sorted(set(x for x in xs if rng.random() < 0.4) | (set([rng.randrange(4)]) if rng.random() < 0.3 else set()))
-    return {"seed": seed, "prog": prog, "xs": xs, "via": via, "raise_first": rng.random() < 0.5, "pre": pre,
-            "cache": rng.random() < 0.5, "restart": rng.random() < 0.4, "backend": rng.choice(["fs", "fs", "memory"])}
+    warm = sorted(set(x for x in xs if rng.random() < 0.35))
+    return {"seed": seed, "prog": prog, "xs": xs, "via": via, "raise_first": rng.random() < 0.5, "pre": pre, "warm": warm,
+            "cache": rng.random() < 0.6, "restart": rng.random() < 0.5, "backend": rng.choice(["fs", "fs", "memory"])}
 
 
 def cases(tier, seed):
@@ -88,6 +89,11 @@ def run_world(root, case, world_name):
                         pass
                 side.take()
             if do_batch:
+                for x in case.get("warm", []):     # single calls just before: these elements are memory-cache hits in the batch
+                    try:
+                        f(x=x)
+                    except Exception:  # noqa
+                        pass
                 side.take()
                 if world_name == "A":
                     try:
@@ -143,6 +149,8 @@ def execute(case):
         stats["with_prememoized"] = 1
     if not xs:
         stats["empty_batches"] = 1
+    if case.get("warm"):
+        stats["with_warm_elements"] = 1
     if case["prog"]["nodes"][0]["params"] == "x,y":
         stats["partial_prefix"] = 1
     if case["restart"] and case["backend"] != "memory":
@@ -177,7 +185,7 @@ def execute(case):
             if c > 1:
                 viol.append(core.violation("element-body-ran-more-than-once", feats, {"x": x, "runs": c}))
                 break
-            if x in case["pre"]:
+            if x in case["pre"] or x in case.get("warm", []):
                 viol.append(core.violation("prememoized-element-re-executed", feats, {"x": x}))
                 break
     if not viol and A["store"] != B["store"]:
